@@ -9,7 +9,7 @@ POOL = ["q0", "q1", "q2", "q3", "q4", "q5", "q6", "q7", "p0", "p1", "s", "t", "u
         # names that are another name followed by an alphabet symbol / by themselves (string-keyed caches, concatenated names)
         "q", "qa", "qb", "q00", "q01", "11", "qq"]
 SYMS = ["a", "b", "0", "1", "c"]
-ODD_SYMS = ["_", "ε"]                  # ordinary input symbols (\w) that other parts of the library write for the empty word
+ODD_SYMS = ["_", "ε", " "]                  # ordinary input symbols (\w) that other parts of the library write for the empty word
 UNDERSCORE_NAMES = ["s", "t", "u", "v", "s_t", "t_u", "u_v", "s_t_u", "t_u_v", "s_t_u_v"]
 EPS = ["", "ε", "_", "e"]
 EPS_NFA = EPS + ["eps", "lambda", "ea"]      # "any epsilon symbol": also multi-character ones that contain alphabet symbols
@@ -41,7 +41,7 @@ def alphabets(lo=0, hi=3, syms=SYMS, odd=False):
     base = st.lists(st.sampled_from(syms), min_size=lo, max_size=hi, unique=True).map(sorted)
     if not odd or hi < 1:
         return base
-    with_odd = st.tuples(st.sampled_from(ODD_SYMS), st.lists(st.sampled_from(syms), min_size=max(lo - 1, 0), max_size=hi - 1, unique=True)).map(lambda t: sorted([t[0]] + t[1]))
+    with_odd = st.tuples(st.sampled_from(ODD_SYMS if odd is True else list(odd)), st.lists(st.sampled_from(syms), min_size=max(lo - 1, 0), max_size=hi - 1, unique=True)).map(lambda t: sorted([t[0]] + t[1]))
     return st.one_of(base, base, base, base, with_odd)
 
 
